@@ -2,6 +2,7 @@ package enga
 
 import (
 	"fmt"
+	"regexp"
 	"sort"
 	"strings"
 )
@@ -21,13 +22,16 @@ func init() {
 	})
 }
 
+var tmpNameRE = regexp.MustCompile(`"[^"]*/([0-9a-f]{64})\d+"`)
+
 func finishQ(rc *RunCtx, qr *QRun) {
 	// fold the observable outcome into the trace hash (determinism self-test)
 	for _, d := range qr.Deliveries {
 		rc.Tape.Note(fmt.Sprintf("d%d %s %s %d", d.Watcher, d.Oid, d.Name, d.Step))
 	}
 	for _, e := range qr.Errors {
-		rc.Tape.Note(e)
+		// temp-file names carry a random suffix and the scratch path differs per worker
+		rc.Tape.Note(tmpNameRE.ReplaceAllString(e, "$1-TMP"))
 	}
 	for _, r := range qr.W.Net.Log {
 		rc.Tape.Note(fmt.Sprintf("%d %v %s %s %s %d %s", r.Step, r.At, r.G, r.Method, r.URL, r.Status, r.Note))
